@@ -73,3 +73,20 @@ Theorem C01_generated_guard_is_the_model : forall st s i t,
   wait_for_dependencies_ready (pview s (indel st i)) (pview s (succ_wait st i)) (pview s (succ_lazy st i)) (lazy st) t = deps_ok st s i t.
 Proof. exact tie_wait_for_dependencies. Qed.
 Print Assumptions C01_generated_guard_is_the_model.
+
+(* tie to the source: the tiered arithmetic the guard and the tables are stated in - the order on times (`<` of TieredTime),
+   the action of a delay on a time (TieredTime + TieredInterval), the order on delays (`<` of TieredInterval, by which
+   input_delays keeps the smaller of two delays of a pair) and update_min - are the functions regenerated from
+   mosaik/tiered_time.py and mosaik/scenario.py on every run (Gen/TieredTime.v, Gen/UpdateMin.v) *)
+From MV Require Prelude.Py Gen.TieredTime Gen.UpdateMin Time.Tie.
+Theorem C01_generated_tiered_arithmetic_is_the_model :
+  (forall a b, MV.Gen.TieredTime.TieredTime___lt__ (MV.Gen.TieredTime.mk_TieredTime a) (MV.Gen.TieredTime.mk_TieredTime b) =
+               if (MV.Prelude.Py.py_len a =? MV.Prelude.Py.py_len b)%Z then MV.Prelude.Py.Ok (tlt a b) else MV.Prelude.Py.AssertFail) /\
+  (forall t g, MV.Time.Tie.gwf g ->
+               MV.Gen.TieredTime.TieredTime___add__ (MV.Gen.TieredTime.mk_TieredTime t) g =
+               if (MV.Prelude.Py.py_len t =? MV.Gen.TieredTime.TieredInterval_pre_length g)%Z
+               then MV.Prelude.Py.Ok (MV.Gen.TieredTime.mk_TieredTime (act t (MV.Time.Tie.to_spec g))) else MV.Prelude.Py.AssertFail) /\
+  (forall a b, MV.Time.Tie.gwf a -> MV.Time.Tie.gwf b ->
+               MV.Gen.TieredTime.TieredInterval___lt__ a b = MV.Time.Tie.optres (ilt (MV.Time.Tie.to_spec a) (MV.Time.Tie.to_spec b))).
+Proof. split; [exact MV.Time.Tie.tie_tlt|]. split; [exact MV.Time.Tie.tie_act|exact MV.Time.Tie.tie_lt]. Qed.
+Print Assumptions C01_generated_tiered_arithmetic_is_the_model.
